@@ -70,7 +70,7 @@ OpsWrite ==
 OpsInsert ==
     { [op |-> "index_insert", key |-> k, opts |-> o, now |-> t, now_ok |-> TRUE]
         : k \in Keys, t \in Times,
-          o \in [size : {<<>>, <<7>>}, sri : {<<>>} \cup { <<x>> : x \in Addrs },
+          o \in [size : {<<>>}, sizes : {"DEFAULT", "7"}, sri : {<<>>} \cup { <<x>> : x \in Addrs },
                  time : {"DEFAULT"}, meta : {"DEFAULT"} \cup Metas, raw : {"DEFAULT"}] }
 OpsRemove ==
     { [op |-> "remove", key |-> k, now |-> t, now_ok |-> TRUE] : k \in Keys, t \in Times }
